@@ -2,6 +2,8 @@ import OrbitModel.Proofs.StatusMono
 import OrbitModel.Proofs.GenEqStatus
 import OrbitModel.Proofs.GenEqWrite
 import OrbitModel.Proofs.DecodeSafe
+import OrbitModel.Proofs.SnapshotStatus
+import OrbitModel.Proofs.GenEqSnap
 /-!
 # C19 — replication progress never regresses and equals its maximum at rest
 
@@ -66,5 +68,54 @@ theorem foreign_head_was_counted_before_the_fix (e : Entry) (h : e.logId = 2) (h
     (hi : e.identOk = true) (hh : e.hashOk = true) :
     syncHeadsLoadsForeign { wildcard := true } [{ entry := e }] [] = .load [e] ∧
     syncHeads { wildcard := true } 1 [{ entry := e }] [] = .load [] := foreign_head_was_loaded e h hk hi hh
+
+/-- "that value lies between the largest Lamport time among its entries and the number of entries":
+in a complete log (closed under `next`) of honestly clocked entries (each exactly one tick above one
+of the entries it names: go-ipfs-log's `max(clock, heads) + 1`) no clock time exceeds the number of
+entries, for every log size and shape. -/
+theorem clock_times_le_entry_count {U : List Entry} (hU : HashDet U) (hT : ClockTight U) {L : Log}
+    (hs : ∀ e ∈ L.entries, e ∈ U) (hc : Closed L) : ∀ e ∈ L.entries, e.time ≤ L.entries.length :=
+  time_le_length hU hT hs hc
+
+/-- A fresh store that loaded a snapshot (`LoadFromSnapshot` after the `fix:` commit, finding F23)
+is at rest with progress = maximum = number of entries, and no entry's Lamport time is above it —
+whatever else the snapshot file held (a snapshot written while the log grew holds records its heads
+do not cover). -/
+theorem at_rest_after_snapshot_load {U : List Entry} (hU : HashDet U) (hT : ClockTight U) {L : Log}
+    (hs : ∀ e ∈ L.entries, e ∈ U) (hc : Closed L) :
+    Snap.statusAfterLoad L.entries L = { progress := L.entries.length, max := L.entries.length } ∧
+    ∀ e ∈ L.entries, (e.time : Int) ≤ (Snap.statusAfterLoad L.entries L).max :=
+  ⟨Snap.load_status_at_rest hU hT hs hc, Snap.load_status_ge_clock hU hT hs hc⟩
+
+/-- Refutation witness for the tree before that repair: the loader took the clock over every record
+of the file; a snapshot written while the log grew from 3 to 4 entries left the fresh store at 3/4
+with a complete log of 3 entries (replayed on the real store: corpus/C19/f23). -/
+theorem snapshot_load_counted_unmerged_records_before_the_fix :
+    let L : Log := { (Log.empty 1) with entries := [Snap.chainEntry 1, Snap.chainEntry 2, Snap.chainEntry 3] }
+    Snap.statusAfterLoad [Snap.chainEntry 1, Snap.chainEntry 2, Snap.chainEntry 3, Snap.chainEntry 4] L = { progress := 3, max := 4 } ∧
+    Snap.statusAfterLoad L.entries L = { progress := 3, max := 3 } :=
+  Snap.counting_every_record_left_the_store_short
+
+/-- the loader of the Go text of this run takes the clock over the entries of the rebuilt log, raises
+the maximum, joins, refreshes the view and only then brings the status up to date -/
+theorem snapshot_load_order_tied_to_go_text : Gen.loadSnapshotOrder = Order.loadSnapshot :=
+  gen_loadSnapshot_order
+
+/-- premises satisfiable: the chain e1 ← e2 ← e3 is honestly clocked and closed -/
+example : ClockTight [Snap.chainEntry 1, Snap.chainEntry 2, Snap.chainEntry 3] ∧
+    Closed { (Log.empty 1) with entries := [Snap.chainEntry 1, Snap.chainEntry 2, Snap.chainEntry 3] } := by
+  constructor
+  · intro e he
+    simp only [List.mem_cons, List.mem_nil_iff, or_false] at he
+    rcases he with rfl | rfl | rfl
+    · left; decide
+    · right; exact ⟨Snap.chainEntry 1, by simp, by decide, by decide⟩
+    · right; exact ⟨Snap.chainEntry 2, by simp, by decide, by decide⟩
+  · intro e he n hn
+    simp only [List.mem_cons, List.mem_nil_iff, or_false] at he
+    rcases he with rfl | rfl | rfl
+    · simp [Snap.chainEntry] at hn
+    · simp [Snap.chainEntry] at hn; subst hn; decide
+    · simp [Snap.chainEntry] at hn; subst hn; decide
 
 end Orbit.C19
